@@ -294,6 +294,91 @@ func (c *Ctx) methodOf(n *types.Named, name string) *ssa.Function {
 	return c.P.SSA.MethodValue(sel)
 }
 
+// sliceBacking: where the backing array of the slice value v may come from: "fresh" (allocated in the function:
+// make, a clone, a conversion from string, or the growth of an append), "nil", or a description of a foreign origin
+// (a parameter, a stored value, anything unrecognised). `append(dst, src...)` writes into dst's array when it fits, so
+// its result shares dst's origins (never src's); `x[:0:0]` has no capacity and shares nothing.
+func (c *Ctx) sliceBacking(v ssa.Value) []string {
+	set := map[string]bool{}
+	seen := map[ssa.Value]bool{}
+	var rec func(v ssa.Value)
+	rec = func(v ssa.Value) {
+		if seen[v] {
+			return
+		}
+		seen[v] = true
+		switch x := v.(type) {
+		case *ssa.MakeSlice:
+			set["fresh"] = true
+		case *ssa.Const:
+			if x.Value == nil {
+				set["nil"] = true
+			} else {
+				set["const"] = true
+			}
+		case *ssa.Convert:
+			if isStringType(x.X.Type()) {
+				set["fresh"] = true
+			} else {
+				rec(x.X)
+			}
+		case *ssa.ChangeType:
+			rec(x.X)
+		case *ssa.Slice:
+			if k, ok := constInt(x.Max); ok && x.Max != nil && k == 0 {
+				set["nil"] = true // zero capacity: shares no storage
+				return
+			}
+			rec(x.X)
+		case *ssa.Phi:
+			for _, e := range x.Edges {
+				rec(e)
+			}
+		case *ssa.Call:
+			if b, ok := x.Call.Value.(*ssa.Builtin); ok && b.Name() == "append" {
+				set["fresh"] = true // growth allocates
+				rec(x.Call.Args[0])
+				return
+			}
+			if callIsPkgFunc(&x.Call, "bytes", "Clone") || callIsPkgFunc(&x.Call, "slices", "Clone") {
+				set["fresh"] = true
+				return
+			}
+			if sc := x.Call.StaticCallee(); sc != nil && c.P.IsRepoFunc(sc) && len(sc.Blocks) > 0 {
+				for _, b := range sc.Blocks {
+					if r, ok := b.Instrs[len(b.Instrs)-1].(*ssa.Return); ok && len(r.Results) > 0 {
+						rec(r.Results[0])
+					}
+				}
+				return
+			}
+			set["call:"+x.String()] = true
+		case *ssa.UnOp:
+			if al, ok := x.X.(*ssa.Alloc); ok && x.Op == token.MUL {
+				for _, st := range c.P.cellStores(al) {
+					rec(st.Val)
+				}
+				return
+			}
+			set["load:"+x.String()] = true
+		case *ssa.Extract:
+			if lk, ok := x.Tuple.(*ssa.Lookup); ok {
+				set["stored:"+lk.String()] = true
+				return
+			}
+			set["extract:"+x.String()] = true
+		case *ssa.Lookup:
+			set["stored:"+x.String()] = true
+		case *ssa.Parameter:
+			set["param:"+x.Name()] = true
+		default:
+			set[fmt.Sprintf("%T:%s", v, v.String())] = true
+		}
+	}
+	rec(v)
+	return sortedKeys(set)
+}
+
 func ruleC14_2(c *Ctx) {
 	impls := c.connImpls()
 	n := 0
@@ -315,8 +400,8 @@ func ruleC14_2(c *Ctx) {
 				return
 			}
 			nSet++
-			for _, r := range c.P.Roots(mu.Value, TraceOpts{NoParams: true}) {
-				if _, isMake := r.(*ssa.MakeSlice); !isMake {
+			for _, o := range c.sliceBacking(mu.Value) {
+				if o != "fresh" {
 					okSet = false
 				}
 			}
@@ -347,14 +432,8 @@ func ruleC14_2(c *Ctx) {
 				return
 			}
 			nRet++
-			for _, root := range c.P.Roots(r.Results[0], TraceOpts{NoParams: true}) {
-				switch x := root.(type) {
-				case *ssa.MakeSlice:
-				case *ssa.Const:
-					if x.Value != nil {
-						okGet = false
-					}
-				default:
+			for _, o := range c.sliceBacking(r.Results[0]) {
+				if o != "fresh" && o != "nil" {
 					okGet = false
 				}
 			}
@@ -659,7 +738,8 @@ func ruleC14_6(c *Ctx) {
 			}
 			n++
 			fromPrefix := false
-			c.P.TraceBack(cc.Args[1], TraceOpts{NoHeapFields: true}, func(v ssa.Value, _ []int) bool {
+			// (the prefix may travel in a field of a collector object)
+			c.P.TraceBack(cc.Args[1], TraceOpts{}, func(v ssa.Value, _ []int) bool {
 				if p, ok := v.(*ssa.Parameter); ok && isStringType(p.Type()) {
 					fromPrefix = true
 				}
